@@ -27,7 +27,7 @@ const childProcs = "4"
 func init() {
 	driver.Register(&driver.Engine{
 		ID: "C05", Level: "exploration", Race: true,
-		Rule: "world arm: 16 generated modules (lists, dicts with string keys shorter/longer than 12 bytes, sets, tuples, nested/shared containers, structs, closures with captured state and mutable-looking defaults, bound methods, lambdas, big ints) are executed and thereby frozen; a case = (world, round). Per case three fresh copies of the world are built: (1) first-use storm: 16 goroutines released together make the first Go API uses (Hash/String/Freeze/Len/Iterate/AttrNames) of every shared object in the same order; (2) main run: one base list of 160 random operations aimed at 8 randomly chosen shared objects (Starlark programs that read/index/slice/iterate/compare/hash/print/json-encode/call/store-and-refreeze/attempt mutation - 3 of 4 compiled once and the one *Program initialised by all goroutines, the rest compiled by every goroutine - and Go API calls: Freeze, Iterate, Elements/Entries push iterators, Equal/Compare/Binary, Get/Index/Slice, Call, Append/SetKey/Clear...) is run by 16 goroutines on ONE shared copy, each on its own starlark.Thread, released together, without harness synchronisation while running; even rounds: every goroutine runs its own shuffle, free-running; odd rounds: all run the same order, time-slotted, so that the same operation hits the same object at the same moment; (3) afterwards every goroutine's list is run solo on the private copy (with separately compiled programs) and all transcripts are compared; the shared copy must render identically before and after. program arm: 16 goroutines Init one shared *Program (from source, and decoded by CompiledProgram) with predeclared values that make half of the executions fail at various depths, then call its functions 48 times each, rendering EvalError.Backtrace/CallStack positions (lazy line-table decoding); the solo reference uses its own program instance. distinct = distinct (operation template, target objects) / (program, variant, failure) combinations whose results were produced by 16 goroutines concurrently and agreed with the solo run",
+		Rule: "world arm: 16 generated modules (lists, dicts with string keys shorter/longer than 12 bytes, sets, tuples, nested/shared containers, structs, closures with captured state and mutable-looking defaults, bound methods, lambdas, big ints) are executed and thereby frozen; a case = (world, round). Per case three fresh copies of the world are built: (1) first-use storm: 16 goroutines released together make the first Go API uses (Hash/String/Freeze/Len/Iterate/AttrNames) of every shared object in the same order; (2) main run: one base list of 160 random operations aimed at 8 randomly chosen shared objects (Starlark programs that read/index/slice/iterate/compare/hash/print/json-encode/call/store-and-refreeze/attempt mutation - 3 of 4 compiled once and the one *Program initialised by all goroutines, the rest compiled by every goroutine - and Go API calls: Freeze, Iterate, Elements/Entries push iterators, Equal/Compare/Binary, Get/Index/Slice, Call, Append/SetKey/Clear...) is run by 16 goroutines on ONE shared copy, each on its own starlark.Thread, released together, without harness synchronisation while running; even rounds: every goroutine runs its own shuffle, free-running; odd rounds: all run the same order, time-slotted, so that the same operation hits the same object at the same moment; (3) afterwards every goroutine's list is run solo on the private copy (with separately compiled programs) and all transcripts are compared; the shared copy must render identically before and after. program arm: 16 goroutines Init one shared *Program (from source, and decoded by CompiledProgram) with predeclared values that make half of the executions fail at various depths, then call its functions 48 times each, rendering EvalError.Backtrace/CallStack positions (lazy line-table decoding); the solo reference uses its own program instance. ownership arm: a fixed module (compiled with and without the Recursion option) x rounds; all 16 goroutines run the same enumerated list in the same order (time-slotted or free-running from a common start), each with a value of its own (TAG, replaced in the transcript): storage family - slice/+/*/list()/tuple()/dict views/*args of frozen tuples, lists, dicts and sets, including frozen globals that are themselves slices of other globals, then extend the result (a result must own its storage: the module must render identically after every solo operation and after the concurrent run); bound family - every mutating method of list/dict/set through a bound method that holds the ONLY reference to its receiver, exported as a global, in a tuple returned by a factory, as list element/dict value/struct field, captured by a closure, as a parameter default, or one level behind a getter (all must be rejected); call family - all goroutines inside the same frozen function/closure at once with their own arguments (locals, cells, defaults, *args/**kwargs, comprehension and nested calls), via Starlark programs and starlark.Call. distinct = distinct (operation template, target objects) / (program, variant, failure) combinations whose results were produced by 16 goroutines concurrently and agreed with the solo run",
 		Assumptions: []string{
 			"Go race detector (-race build, GORACE halt_on_error=0 log_path=...; reports are read back from the log of each child; a self-provoked race per child proves the channel works)",
 			"happens-before race detection does not need the racing accesses to be simultaneous, only unordered; the harness therefore adds no synchronisation between worker goroutines while they run (overlap is measured from monotonic timestamps recorded locally)",
@@ -81,6 +81,7 @@ func run(c *driver.Ctx) {
 	}
 	armWorld(c, rl)
 	armProgram(c, rl)
+	armOwn(c, rl)
 	rl.check(c, map[string]any{"at": "end of child"})
 }
 
